@@ -31,6 +31,10 @@ const SNIPPETS = [
   ['function f$() { return <ul>{items.map((i) => <li key={i}>{i}</li>)}</ul>; }', []],
   ['const a$ = <div nativeOnly={v} nativeOnClick={h} online="1" once onward={w} />;', []],
   ['const a$ = <Comp ongoing="x" nativeOnce={v} one={1} />;', []],
+  ['const a$ = <Fragment>{v}<i /></Fragment>;', []],
+  ['const a$ = <KeepAlive><Comp />{v}</KeepAlive>;', []],
+  ['const a$ = <Comp>{{ default: () => 1, named: () => 2 }}</Comp>;', []],
+  ['const a$ = <div>{{ a: 1 }}</div>;', []],
   ['const a$ = [<Comp />, <b />].map((v) => v);', []],
   ['const a$ = mount(<Comp a="1" />).then(cb);', []],
   ['const a$ = (() => <div>{v}</div>)();', []],
@@ -91,6 +95,9 @@ const SPELLINGS = [
   ['unknown keys', '{"foo": 1, "isCustomElement": "x", "transform_on": true, "merge_props": false, "Optimize": true}', DEFAULTS],
   ['unknown + known', '{"bar": {"nested": [1]}, "optimize": true}', { ...DEFAULTS, optimize: true }],
   ['whitespace and order', ' {\n "resolveType" : true ,\n\t"transformOn":true}', { ...DEFAULTS, resolveType: true, transformOn: true }],
+  ['snake_case spellings are unknown keys', '{"merge_props": false, "transform_on": true, "enable_object_slots": false, "resolve_type": true, "custom_element_patterns": ["^x-"]}', DEFAULTS],
+  ['unknown snake_case key of another type', '{"custom_element_patterns": "x", "merge_props": 3}', DEFAULTS],
+  ['camelCase next to its snake_case twin', '{"mergeProps": true, "merge_props": false, "optimize": true, "Optimize": false}', { ...DEFAULTS, optimize: true }],
   ['each non-default', '{"transformOn":true,"optimize":true,"mergeProps":false,"enableObjectSlots":false,"resolveType":true,"pragma":"h","customElementPatterns":["^x-","y$"]}', { transformOn: true, optimize: true, mergeProps: false, enableObjectSlots: false, resolveType: true, pragma: 'h', customElementPatterns: ['^x-', 'y$'] }],
   ...Object.keys(DEFAULTS).filter((k) => typeof DEFAULTS[k] === 'boolean').flatMap((k) => [
     [`only ${k} default`, JSON.stringify({ [k]: DEFAULTS[k] }), DEFAULTS],
